@@ -35,13 +35,15 @@ def _one(args):
         d = concrete(rows, order_for(rows, seed, which))
         for weighted in (True, False):
             exp_all = case["w" if weighted else "u"]
-            for form in ("dict", "callable"):
-                names = METRICS if form == "dict" else [rnd_m]
+            for form in ("dict", "callable", "callable_int"):
+                if form == "callable_int" and (which != 0 or not weighted):
+                    continue
+                names = METRICS if form == "dict" else ([rnd_m] if form == "callable" else ["tpc"])      # callable_int: an all-integer frame
                 if form == "dict":
                     metrics = {m: fns[m] for m in names}
                     sp = {m: {"sample_weight": d["w"]} for m in names} if weighted else None
                 else:
-                    metrics = fns[rnd_m]
+                    metrics = fns[names[0]]
                     sp = {"sample_weight": d["w"]} if weighted else None
                 kw = dict(metrics=metrics, y_true=d["y"], y_pred=d["p"], sensitive_features=d["g"], sample_params=sp)
                 if control:
@@ -54,7 +56,7 @@ def _one(args):
                     out.append(({"api": "MetricFrame", "kind": "exception", **base_sig}, f"MetricFrame raised {e!r}", detail))
                     continue
                 nev += 1
-                cf = form == "callable"
+                cf = form != "dict"
                 for m in names:
                     exp = exp_all[METRICS.index(m)]
                     for c in strata:
